@@ -223,6 +223,15 @@ func runC07(c *core.Ctx) error {
 
 	// ---- R07.5
 	checkDepthPairing(c, r5, prog)
+	r6 := c.NewRule("R07.6", "S1", "reference transparency of comparators, reference identity, per-iteration marks, recursion walk", 4)
+	irProg, err := c.Program("./gen/ir", "./gen", "./openapi/parser", "./jsonschema")
+	if err != nil {
+		return err
+	}
+	checkRefNeverDecidesInequality(c, r6, irProg)
+	checkRefIdentityWhole(c, r6, irProg, pkgParser, pkgJS, pkgGen)
+	checkDeferredReleaseInLoop(c, r6, irProg, pkgGen, pkgParser, pkgJS)
+	checkRecursionWalkComplete(c, r6, irProg)
 	return nil
 }
 
